@@ -222,25 +222,8 @@ def solve(ex, ob, timeout_ms=TIMEOUT_MS):
         ob.status = "refuted"
         ob.model = s.model()
     else:
-        # quantifier instantiation depends on z3's internal term ordering, which depends on everything solved before
-        # in this process: ask once more in a fresh context (same formula, same budget) before calling it undecided
-        c2 = z3.Context()
-        s2 = z3.Solver(ctx=c2)
-        s2.set("timeout", timeout_ms)
-        for a in ex.all_axioms():
-            s2.add(a.translate(c2))
-        for a in ob.pc:
-            s2.add(a.translate(c2))
-        s2.add(z3.Not(ob.goal).translate(c2))
-        t1 = time.time()
-        r2 = s2.check()
-        ob.time_s += time.time() - t1
-        if r2 == z3.unsat:
-            ob.status = "proved"
-            ob.detail = "second attempt in a fresh z3 context"
-        else:
-            ob.status = "unproved"
-            ob.detail = "z3: %s" % s.reason_unknown()
+        ob.status = "unproved"
+        ob.detail = "z3: %s" % s.reason_unknown()
     return ob.status
 
 
